@@ -38,6 +38,22 @@ CLAIMS = {
         technique="TLA+ session model with fault actions model-checked by TLC; behaviours with injected faults replayed on a real AmplitudeModel (B1)",
         engine="tlc-replay",
     ),
+    "C03": dict(
+        category="model_checking",
+        text="spec/Superpose.tla states the superposition algebra exactly (Gaussian-integer amplitudes): TLC checks Linearity, Proportional, SumRule and BatchIndependent in every scenario (6^3 lattice couplings x chain-to-resonance assignments x batch sizes) and evaluates the selection tables of a group with shared resonances. The scenarios are realised on real 3-body (spin-1 finals) and 4-body decay groups: per-chain amplitude tensors measured under set_used_chains([k]) must add up to the amplitude of every ordered subset, set_used_res / only=True / temp_used_res must select exactly the chains of the TLC table, a chain's amplitude must scale with its own coupling (lattice factors), and fit fractions through four routes must be batch independent and obey the sum rule for TLC-enumerated coupling scenarios and batch classes (1, 7, N-1, N, N+3).",
+        design_ref="DESIGN.md 3.2 Superpose, 5/C03",
+        note="Trusted: TLC; the discrete quantifier (subsets, orders, routes, batch classes, lattice couplings) is enumerated, events and the remaining parameters are seeded samples; identities compared at relative 1e-9. The selection state machine (restore after computations) is covered by C17's Session model.",
+        technique="TLA+ exact algebra (Superpose.tla) model-checked by TLC; TLC scenarios and selection tables realised on real decay groups (B3)",
+        engine="tlc-scenario",
+    ),
+    "C18": dict(
+        category="model_checking",
+        text="Split/merge/mask/index/batch-call/LazyCall on nested event data and the momentum-file layouts are specified in TLA+ (spec/DataOps.tla, spec/DatFile.tla). TLC checks Merge(Split)=id, batch-wise = whole, Mask/Index exactness, Load(Save)=id on every tree of <=3 (thorough 4) dict/list/tuple/leaf nodes incl. empty containers, every N, every batch size 1..N+1, every boolean mask, every dat_order permutation and file grouping, together with an implementation-shaped step model of the batch generator. Every TLC case is executed on tf_pwa with event ids as array contents and compared exactly; recorded data_split calls (repo test + MAX_ITER boundary probes) are validated by TLC.",
+        design_ref="DESIGN.md 3.2 DataOps, 5/C18; notes/C18.md",
+        note="Trusted: TLC, numpy file I/O, the projection (nested structure -> nested lists of ids); bounded domain (nodes, N, leaf width 2); N >= 1; trees with at least one leaf; save_data/load_data judged on dict-rooted data only; ROOT I/O covered only by 3 flat-dict round trips.",
+        technique="TLC-enumerated case tables + step-machine model of the batch generator, exact conformance replay (B3), TLC validation of recorded calls (B2)",
+        engine="tlc-table",
+    ),
 }
 
 NOT_YET = "check not built yet in this round (planned in DESIGN.md 5); not claimed until its specification is bound to the code"
